@@ -186,8 +186,11 @@ fn main() {
         let _ = std::fs::write(&p, serde_json::to_string_pretty(&ev).unwrap());
       }
       let c = print_outcome(&ctx, &rep);
-      if c == 0 {
+      let known_hit = rep.sections.iter().any(|s| !s.rec.known_hits.is_empty());
+      if c == 0 && !known_hit {
         println!("replay {}: property holds on this input (profile {})", file, profile);
+      } else if c == 0 {
+        println!("replay {}: still fails, as recorded in known_findings.json (profile {})", file, profile);
       }
       c
     }
